@@ -197,9 +197,40 @@ class FlowPolicy(Policy):
         want = cands[0].split(".")[0]
         return cands[0], cfg.set(want, cfg.env[var])
 
+    def _positional(self, fval, args, kwargs, label=None):
+        """Arguments of a call of a repository function in the order of its parameters: `f(a, now=n)` and `f(a, n)` are the same call.
+        Summaries and event readers index positional arguments; keywords that name the next positional parameters are moved there."""
+        if not kwargs:
+            return args, kwargs
+        fn, recv = None, None
+        if isinstance(fval, FuncV) and getattr(fval, "node", None) is not None and not isinstance(fval.node, ast.Lambda):
+            fn, recv = fval.node, fval.recv
+        elif label and self.program is not None and label.count(".") >= 1:
+            # `Class.method(..)` of a repository class reached through an imported name
+            parts = label.split(".")
+            cu = self.program.classes.get(parts[-2])
+            if cu is not None:
+                mu = self.program.by_qual.get((cu.rel, f"{cu.qual}.{parts[-1]}"))
+                if mu is not None and isinstance(mu.node, (ast.FunctionDef, ast.AsyncFunctionDef)):
+                    fn, recv = mu.node, cu
+        if fn is None:
+            return args, kwargs
+        pos = [a.arg for a in fn.args.posonlyargs + fn.args.args]
+        bound = recv is not None and pos and not any(isinstance(d, ast.Name) and d.id == "staticmethod" for d in fn.decorator_list)
+        if bound:
+            pos = pos[1:]
+        args = list(args)
+        i = len(args)
+        while i < len(pos) and pos[i] in kwargs and i >= len(fn.args.posonlyargs) - (1 if bound else 0):
+            args.append(kwargs[pos[i]])  # (the keyword stays in kwargs as well: readers by name and readers by position both find it)
+            i += 1
+        return args, kwargs
+
     def call(self, interp, node, fname, fval, args, kwargs, cfg, out):
         label = self.label(fname, fval)
         label, cfg = self._alias(interp, label, cfg)
+        call_args = args
+        args, _ = self._positional(fval, args, kwargs, label)  # for summaries and events only; a call that is interpreted keeps its own form
         if isinstance(fval, App) and fval.op == "boundmethod":
             r = interp.container_method(node, fval.args[0], fval.args[1].v, args, kwargs, cfg)
             if r is not None:
@@ -521,6 +552,16 @@ def _const_expr(program, rel, node, given=None, depth=3):
         return None
     if len(res) == 1 and _concrete(res[0][1]):
         return res[0][1]
+    if depth > 0 and any(isinstance(n, ast.Call) for n in ast.walk(node)):
+        # a table computed by a helper of the module (`NAMES = _class_names(ast.For, ast.With)`): the helper is interpreted too
+        try:
+            pol = FlowPolicy(program, may_raise_all=False, cancel=False)
+            pol.inline_depth = 3
+            res = FlowInterp(pol, rel).ev(node, Cfg(env=env), Out())
+        except Exception:  # noqa
+            return None
+        if len(res) == 1 and _concrete(res[0][1]):
+            return res[0][1]
     return None
 
 
